@@ -108,7 +108,8 @@ static void mm_check_all(const char *when, int opi)
 			sim_violation("C12", "arenas-unsorted", "%s op %d: arena list not sorted by address", when, opi);
 	uint64_t want = offsetof(struct mm_checkpoint, chkps) + sizeof(struct buddy_state *) +
 			(uint64_t)array_count(mm->buddies) * offsetof(struct buddy_checkpoint, base_mem) + mm_allocated_bytes();
-	if(mm->full_ckpt_size != want)
+	/* an over-estimate only wastes memory; an under-estimate is a heap overflow in the next checkpoint */
+	if(mm->full_ckpt_size < want)
 		sim_violation("C05", "checkpoint-size", "%s op %d: allocator says a full checkpoint needs %llu bytes, the allocation trees need %llu",
 		    when, opi, (unsigned long long)mm->full_ckpt_size, (unsigned long long)want);
 	for(int k = 0; k < MM_SLOTS; k++) {
